@@ -146,6 +146,8 @@ def evaluate(name, props=None):
     finally:
         sh(["git", "-C", "/repo", "checkout", "--", "."])
         sh(["git", "-C", "/repo", "clean", "-fdq", "--", "."])
+        # leave Generated/*.lean in the state of the restored tree
+        sh(["python3", "-c", "import sys; sys.path.insert(0, 'run'); import verif; verif.regenerate()"], cwd=ROOT)
     return res
 
 
